@@ -292,12 +292,12 @@ def gate_groups(tag, tier, aliases=(0, 1, 2, 3, 4)):
         if al in aliases or al == 3:
             gs.append(Group('%s.bootsMUX.%s' % (tag, nm), 'c01_gates.c', 'h_mux', extract=[(BG, 'bootsMUX'), (NF, 'modSwitchToTorus32')],
                             replace=['lweNoiselessTrivial', 'lweAddTo', 'lweSubTo'], defines={'H_MUX': None, 'ALIAS': al}, timeout=900,
-                            instance={'gate': 'bootsMUX', 'aliasing': nm}))
+                            instance={'gate': 'bootsMUX', 'aliasing': nm}, replay=('gate', 'bootsMUX')))
     gs.append(Group(tag + '.bootsMUX.samedim', 'c01_gates.c', 'h_mux', extract=[(BG, 'bootsMUX'), (NF, 'modSwitchToTorus32')],
                     replace=['lweNoiselessTrivial', 'lweAddTo', 'lweSubTo'], defines={'H_MUX': None, 'ALIAS': 0, 'MUX_SAMEDIM': None}, timeout=900))
     gs.append(Group(tag + '.NOT_COPY_CONSTANT', 'c01_gates.c', 'h_gate1',
                     extract=[(BG, 'bootsNOT'), (BG, 'bootsCOPY'), (BG, 'bootsCONSTANT'), (NF, 'modSwitchToTorus32')],
-                    replace=['lweNoiselessTrivial', 'lweNegate', 'lweCopy'], defines={'H_GATE1': None}, timeout=900))
+                    replace=['lweNoiselessTrivial', 'lweNegate', 'lweCopy'], defines={'H_GATE1': None}, timeout=900, replay=('gate', 'NOT_COPY_CONSTANT')))
     return gs
 
 
